@@ -89,6 +89,28 @@ CLAIMED = {
 }
 NOT_YET = "check not built yet in this round (planned: Lean model + correspondence, see DESIGN.md section 4)"
 
+# translator ties (DESIGN.md 9.8): structure regenerated from the source text on every run and consumed by a theorem
+TIES = {
+ "C07": "TRANSLATED model: the match of Governor::next_state is regenerated as a decision table (one row per arm, source order) and C07_translation proves the table, read with first-match semantics, computes the model's nextState for all inputs",
+ "C09": "the emergency sequence of command_emergency is regenerated from the source and proved equal to the model's (C09_emergency_sequence_translated)",
+ "C01": "the arms of trigger/tick, where the shared context is written and what tick re-asserts are regenerated from hydraulic.rs and tied by C01_driver_shape_translated",
+ "C02": "the dispatch of motion variants to emitters is regenerated from hydraulic.rs (C02_dispatch_translated)",
+ "C08": "the arms of trigger/tick, the payload template of speed_control, the normalise-store-govern order and tick's use of the stored command are regenerated from volvo_ems.rs (C08_driver_shape_translated, volvoFrame_template)",
+ "C11": "the parse tables of every unit driver (arm per parameter group, which arms refuse foreign senders, destination guard) are regenerated and tied by C11_parse_tables_as_modelled / C11_credited_only_through_guarded_arms",
+ "C10": "C10_heard_only_from_own_address rests on the regenerated parse tables of C11",
+ "C06": "C06_receive_paths_as_modelled: regenerated parse tables (C11) and responder arms (C20); C06_responder_total",
+ "C20": "the arms and the own-address guard of the request responder are regenerated from authority.rs (C20_served_requests_as_modelled, C20_answers_only_served)",
+ "C04": "the arms of UnixServer::parse and the shape of the session loop (ending error kinds, no return before the fail-safe block, the block itself, initial registration) are regenerated from server.rs (C04_parse_arms_as_modelled, C04_session_loop_as_modelled)",
+ "C03": "C03_failsafe_path_as_modelled over the regenerated session-loop shape",
+ "C05": "C05_session_shape_as_modelled over the regenerated parse arms and session-loop shape",
+ "C15": "the three arms of the command task and the point where its receiver is subscribed are regenerated from runtime/mod.rs (C15_command_task_as_modelled); the stated capacity is pinned over the regenerated constant (C15_capacity_as_stated)",
+ "C14": "client half of the handshake: model clientFlags + C14_client_asks_for_streaming_iff_option, tied through real sockets",
+ "C18": "client half of the handshake: C18_failsafe_session_registered, tied through real sockets and the real glonax-input binary",
+}
+for k, v in TIES.items():
+    t = CLAIMED[k]
+    CLAIMED[k] = (t[0] + " + translator tie: " + v, t[1], t[2], t[3])
+
 checks, na = [], []
 for p in props:
     i = p["id"]
@@ -121,7 +143,7 @@ m = {
   "name": "lean4-model+correspondence",
   "path": "check",
   "serves_properties": [c["property_id"] for c in checks],
-  "kind_free_text": "Lean 4 theorems about a hand-written executable model (lean/GlonaxModel), constants regenerated from /repo by tools/extract.py, model tied to the code by a differential correspondence harness (harness/, real code in-process) whose cases the compiled Lean driver replays; Spec predicates are evaluated on the implementation's output",
+  "kind_free_text": "Lean 4 theorems about a hand-written executable model (lean/GlonaxModel), constants, decision tables and structural facts (match arms, guards, context writes, loop exits) regenerated from /repo's source text by the translator tools/extract.py and consumed by `*_translated` / `*_as_modelled` theorems, model tied to the code by a differential correspondence harness (harness/, real code in-process) whose cases the compiled Lean driver replays; Spec predicates are evaluated on the implementation's output",
  }],
  "checks": checks,
  "not_applicable": na,
